@@ -140,6 +140,40 @@ def _receiver_chain(t: Term) -> List[Term]:
     return out
 
 
+def handlers_never_raise_stopiteration(ck, rule):
+    """The -D message handlers run inside the per-query task. `next(it)` without a default raises StopIteration when `it` is empty;
+    raised from a task, the iterator that hands the results of the parallel map to its consumer re-raises it from __next__, and the
+    consuming `for` loop takes that as the normal end of the results: no error, exit status 0, and the records of this molecule and
+    of every later one are missing from the XMAP."""
+    p = ck.ctx.p
+    ck.clause(rule, "the message handlers of -D never let StopIteration escape: every `next(<iterator>)` in a handler class has a default "
+                    "(raised inside a task of the parallel map, StopIteration reads as the end of the results - this molecule and every "
+                    "later one silently lose their record)")
+    n = 0
+    hit = False
+    for c in p.classes.values():
+        if c.module.is_test or not c.module.name.startswith("src.") or "handle" not in c.methods:
+            continue
+        for m in c.methods.values():
+            n += 1
+            for x in ast.walk(m.node):
+                if isinstance(x, ast.Call) and isinstance(x.func, ast.Name) and x.func.id == "next" and len(x.args) == 1 and not x.keywords:
+                    in_try = any(isinstance(a, ast.Try) and any(y is x for y in ast.walk(a)) and any(
+                        h.type is None or "StopIteration" in ast.unparse(h.type) or ast.unparse(h.type) == "Exception" for h in a.handlers)
+                        for a in ast.walk(m.node))
+                    if in_try:
+                        continue
+                    hit = True
+                    ck.violation(rule, f"{short(m)}:next", where(m, x),
+                                 "`next(...)` without a default in a -D message handler: when the iterator is empty (a benchmark file "
+                                 "without a record for this molecule) StopIteration leaves the worker task and ends the parallel map's "
+                                 "result stream - the run finishes with exit status 0 and the records of this and all later molecules "
+                                 "are missing", found=ast.unparse(x)[:120], required="next(..., None) (the sibling handler does)")
+    ck.floor(rule + " methods of handler classes scanned", n, 8)
+    if not hit:
+        ck.ok(rule, "message handlers", "src/diagnostic/diagnostics.py", f"{n} methods: every next(...) has a default")
+
+
 def header_lookup_forward_only(ck, rule):
     """QryStartPos / QryEndPos of a '-' record are coordinates of the MIRRORED molecule (length - 1 - p, C02.9): looked up in
     query.positions with list.index they are found only by coincidence, otherwise ValueError - in the parent process, between the
@@ -762,6 +796,8 @@ def run(ck):
         pop_loops_test_emptiness(ck, "C07.G27")
     if ck.wants("C07.G28"):
         header_lookup_forward_only(ck, "C07.G28")
+    if ck.wants("C07.G30"):
+        handlers_never_raise_stopiteration(ck, "C07.G30")
     ck.clause("C07.G29", "a joined record names the query and the reference of its parts (as C08.6): the reader the program wires up looks "
                          "every record's maps up by id - a record that names a map that is not in the input (ids exchanged) ends the "
                          "read-back with StopIteration")
